@@ -15,6 +15,7 @@ Inductive value :=
 | VQ (q : Q)        (* a Python float, tracked as the exact rational of its decimal literal / exact arithmetic; always Qred-normal *)
 | VStr (s : list ascii)
 | VList (l : list value)
+| VDict (d : list (value * value))   (* insertion-ordered; the first binding of a key is the one looked up *)
 | VOpaque          (* a number whose value the fragment does not track (a float quotient) *)
 | VExc             (* a Python exception raised while evaluating (IndexError, ZeroDivisionError, ValueError) *)
 | VErr.            (* outside the fragment: ill-typed use; never produced on the tied functions (shown by the ties) *)
@@ -35,6 +36,9 @@ Inductive expr :=
 | EIsInt (a : expr)
 | EToInt (a : expr)
 | EStrip (a : expr)
+| ELower (a : expr)
+| EMod (a b : expr)
+| EFormat (template : list ascii) (args : list expr)    (* "...%s..." % (a, b, ...) with string arguments *)
 | ESlice (a lo hi : expr)       (* a[lo:hi]; a bound may be EConst VNone *)
 | ECall (f : string) (args : list expr)   (* a call of another function of the library: interpreted by the table [prim] *)
 | EListLit (l : list expr).
@@ -44,6 +48,7 @@ Inductive stmt :=
 | SSeq (a b : stmt)
 | SAssign (x : string) (e : expr)
 | SAppend (x : string) (e : expr)
+| SSetItem (x : string) (k e : expr)      (* x[k] = e  for a dictionary x *)
 | SIf (c : expr) (a b : stmt)
 | SFor (x : string) (e : expr) (body : stmt)
 | SWhile (c : expr) (body : stmt)
@@ -93,6 +98,38 @@ Fixpoint veqb (a b : value) {struct a} : bool :=
   | _, _ => false
   end.
 
+Definition lower_py (c : ascii) : ascii :=
+  let n := nat_of_ascii c in if ((65 <=? n) && (n <=? 90))%nat then ascii_of_nat (n + 32) else c.
+
+Fixpoint dict_get (k : value) (d : list (value * value)) : option value :=
+  match d with
+  | [] => None
+  | (k', v) :: d' => if veqb k k' then Some v else dict_get k d'
+  end.
+Fixpoint dict_set (k v : value) (d : list (value * value)) : list (value * value) :=
+  match d with
+  | [] => [(k, v)]
+  | (k', w) :: d' => if veqb k k' then (k', v) :: d' else (k', w) :: dict_set k v d'
+  end.
+
+(* "%s" substitution; None = wrong number / kind of arguments *)
+Fixpoint format_s (t : list ascii) (args : list value) : option (list ascii) :=
+  match t with
+  | [] => match args with [] => Some [] | _ => None end
+  | c :: t' =>
+      if Ascii.eqb c "%" then
+        match t' with
+        | d :: t'' => if Ascii.eqb d "s" then
+                        match args with
+                        | VStr a :: args' => option_map (app a) (format_s t'' args')
+                        | _ => None
+                        end
+                      else None
+        | [] => None
+        end
+      else option_map (cons c) (format_s t' args)
+  end.
+
 Definition is_bad (v : value) : bool := match v with VExc | VErr => true | _ => false end.
 (* strict combination of two sub-results: VErr dominates VExc *)
 Definition bad2 (a b : value) : option value :=
@@ -110,6 +147,7 @@ Definition truthy (v : value) : value :=
   | VQ q => VBool (negb (Qeq_bool q 0))
   | VStr s => VBool (match s with [] => false | _ => true end)
   | VList l => VBool (match l with [] => false | _ => true end)
+  | VDict d => VBool (match d with [] => false | _ => true end)
   | VOpaque => VOpaque
   | VExc => VExc
   | VErr => VErr
@@ -192,6 +230,7 @@ Definition v_in (a b : value) : value :=
   | None => match a, b with
             | VStr p, VStr s => VBool (is_substr p s)
             | x, VList l => VBool (existsb (veqb x) l)
+            | x, VDict d => VBool (match dict_get x d with Some _ => true | None => false end)
             | _, _ => VErr
             end
   end.
@@ -285,6 +324,7 @@ Fixpoint eval (e : expr) (r : env) {struct e} : value :=
                   | None => match x, y with
                             | VStr s, VInt k => match index_val s k with Some c => VStr [c] | None => VExc end
                             | VList l, VInt k => match index_val l k with Some v => v | None => VExc end
+                            | VDict d, k => match dict_get k d with Some v => v | None => VExc end
                             | _, _ => VErr
                             end
                   end
@@ -320,6 +360,24 @@ Fixpoint eval (e : expr) (r : env) {struct e} : value :=
                 | VExc => VExc
                 | _ => VErr
                 end
+  | ELower a => match eval a r with
+                | VStr s => VStr (map lower_py s)
+                | VExc => VExc
+                | _ => VErr
+                end
+  | EMod a b => let x := eval a r in let y := eval b r in
+                match bad2 x y with
+                | Some e => e
+                | None => match x, y with
+                          | VInt p, VInt q => if Z.eqb q 0 then VExc else VInt (p mod q)
+                          | _, _ => VErr
+                          end
+                end
+  | EFormat t args =>
+      let vs := (fix go (l : list expr) : list value := match l with [] => [] | a :: l' => eval a r :: go l' end) args in
+      if existsb (fun v => match v with VErr => true | _ => false end) vs then VErr
+      else if existsb (fun v => match v with VExc => true | _ => false end) vs then VExc
+      else match format_s t vs with Some s => VStr s | None => VErr end
   | EStrip a => match eval a r with
                 | VStr s => VStr (rev (drop_ws (rev (drop_ws s))))
                 | VExc => VExc
@@ -369,6 +427,7 @@ Definition elements (v : value) : option (list value) :=
   match v with
   | VStr s => Some (map (fun c => VStr [c]) s)
   | VList l => Some l
+  | VDict d => Some (map fst d)
   | _ => None
   end.
 
@@ -387,6 +446,12 @@ Fixpoint exec (s : stmt) (r : env) {struct s} : outcome :=
                    | VList l, v => ONorm (set x (VList (l ++ [v])) r)
                    | _, _ => OErr
                    end
+  | SSetItem x k e => match lookup x r, eval k r, eval e r with
+                      | _, VErr, _ | _, _, VErr => OErr
+                      | _, VExc, _ | _, _, VExc => ORaise
+                      | VDict d, kv, v => ONorm (set x (VDict (dict_set kv v d)) r)
+                      | _, _, _ => OErr
+                      end
   | SIf c a b => match truthy (eval c r) with
                  | VBool true => exec a r
                  | VBool false => exec b r
@@ -483,7 +548,7 @@ Lemma exec_split s : forall pre x e body rest r, split_at_for s = Some (pre, (x,
              | other => other
              end.
 Proof.
-  induction s as [| a IHa b IHb | y ey | y ey | c a IHa b IHb | y ey bd IHbd | c bd IHbd | | ey | |];
+  induction s as [| a IHa b IHb | y ey | y ey | y ky ey | c a IHa b IHb | y ey bd IHbd | c bd IHbd | | ey | |];
     intros pre x e body rest r H; cbn [split_at_for] in H; try discriminate H.
   - assert (Hgen : forall pre' l' rest', split_at_for b = Some (pre', l', rest') -> pre = a :: pre' -> (x, e, body) = l' -> rest = rest' ->
                    exec (SSeq a b) r = match exec_list pre r with
@@ -542,7 +607,7 @@ Fixpoint spine (s : stmt) : list stmt :=
 
 Lemma exec_spine s : forall r, exec s r = exec_list (spine s) r.
 Proof.
-  induction s as [| a IHa b IHb | | | | | | | | |]; intros r; cbn [spine exec_list];
+  induction s as [| a IHa b IHb | | | | | | | | | |]; intros r; cbn [spine exec_list];
     try (destruct (exec _ r); reflexivity).
   rewrite exec_seq. destruct (exec a r); try reflexivity. apply IHb.
 Qed.
